@@ -407,7 +407,14 @@ static void CodeSETEQU(Word MayChange) {
                 PushLocHandle(-1);
                 switch (t.Typ) {
                 case TempInt:
-                    EnterIntSymbol(pName, t.Contents.Int, DestSeg, MayChange);
+                    /* 'name EQU *' right behind a BSR is that BSR's "label behind it"
+                       just as 'name:' is */
+                    EnterIntSymbolWithFlags(
+                            pName, t.Contents.Int, DestSeg, MayChange,
+                            (AfterBSRAddr && ((LargeWord)t.Contents.Int == AfterBSRAddr)
+                             && (t.AddrSpaceMask & (1 << SegCode)))
+                                    ? eSymbolFlag_NextLabelAfterBSR
+                                    : eSymbolFlag_None);
                     if (AttrPartOpSize != eSymbolSizeUnknown) {
                         SetSymbolOrStructElemSize(pName, AttrPartOpSize);
                     }
